@@ -214,9 +214,14 @@ Definition avs_ok_id (e : env) (calls : list (Z * Z)) (s s' : st) (a : avs) (id 
                           (0 <=? r_total r') && (0 <=? r_self r') && (0 <=? r_active r')) before after &&
     oz_eqb (get_val (s_avsval s') id) (Some (zsum (map r_active after))).
 
-(* every key string under which operators are opted into this AVS must obey the statement *)
+(* every key string under which operators are opted into this AVS must obey the statement
+   (an alias spelling under which nothing is stored has nothing to obey) *)
 Definition avs_ok (e : env) (calls : list (Z * Z)) (s s' : st) (a : avs) : bool :=
-  avs_ok_id e calls s s' a (v_id a) && forallb (avs_ok_id e calls s s' a) (v_aliases a).
+  avs_ok_id e calls s s' a (v_id a) &&
+  forallb (fun al => match rows_of al (s_rows s), rows_of al (s_rows s') with
+                     | [], [] => true
+                     | _, _ => avs_ok_id e calls s s' a al
+                     end) (v_aliases a).
 
 Definition known_avs (e : env) (id : Z) : bool := existsb (fun a => v_id a =? id) (e_avss e).
 
@@ -231,6 +236,32 @@ Definition step_ok (e : env) (calls : list (Z * Z)) (s s' : st) : bool :=
   (* nothing appears under a key that did not exist: same (avs, operator) keys unless an AVS was wiped *)
   forallb (fun r' => existsb (fun r => (r_avs r =? r_avs r') && (r_op r =? r_op r')) (s_rows s)) (s_rows s').
 
+(* ---------------------------------------------------------------- opt-in / opt-out (rows only) ---- *)
+
+(* avsKeeper.IsAVS as repaired: the address is registered AND spelled exactly as registered (it used to be: any spelling
+   of the registered address bytes, i.e. canonical id or alias) *)
+Definition is_avs (e : env) (key : Z) : bool := existsb (fun a => v_id a =? key) (e_avss e).
+Definition is_alias (e : env) (key : Z) : bool := existsb (fun a => zmem key (v_aliases a)) (e_avss e).
+
+Definition has_row (rows : list row) (key op : Z) : bool := existsb (fun r => (r_avs r =? key) && (r_op r =? op)) rows.
+
+(* OptIn, as far as the value rows are concerned: [pre] stands for all the other checks of OptIn (operator registered, not
+   opted in yet, not removing its key, self value >= minimum, not frozen); when they pass and IsAVS accepts the key,
+   InitOperatorUSDValue creates the zero row under exactly that key *)
+Definition opt_in (e : env) (s : st) (key op : Z) (pre : bool) : st :=
+  if pre && is_avs e key && negb (has_row (s_rows s) key op)
+  then mkSt (s_rows s ++ [mkRow key op 0 0 0]) (s_avsval s) else s.
+
+(* OptOut: DeleteOperatorUSDValue *)
+Definition opt_out (e : env) (s : st) (key op : Z) (pre : bool) : st :=
+  if pre && is_avs e key then mkSt (filter (fun r => negb ((r_avs r =? key) && (r_op r =? op))) (s_rows s)) (s_avsval s) else s.
+
+(* no row and no AVS value is stored under an alias spelling of a registered AVS *)
+Definition alias_free (e : env) (s : st) : bool :=
+  forallb (fun r => negb (is_alias e (r_avs r))) (s_rows s) && forallb (fun kv => negb (is_alias e (fst kv))) (s_avsval s).
+(* an alias spelling is not itself a registered spelling *)
+Definition aliases_disjoint (e : env) : bool := forallb (fun a => negb (is_alias e (v_id a))) (e_avss e).
+
 (* ---------------------------------------------------------------- cases written by the harness ---- *)
 
 Record query := mkQ { q_avs : Z; q_op : Z; q_opted : bool; q_res : option (Z * Z * Z) }.
@@ -243,7 +274,10 @@ Definition vote_power (s : st) (opted : bool) (avsid op : Z) : option Z :=
 
 Record cstep := mkStep { t_env : env; t_calls : list (Z * Z); t_before : st; t_after : st; t_queries : list query;
                          t_votes : list vquery }.
-Record case := mkCase { c_steps : list cstep }.
+(* one observed OperatorKeeper.OptIn call: registry, key string id, operator, accepted?, rows before / after *)
+Record ostep := mkO { o_avss : list avs; o_key : Z; o_op : Z; o_ok : bool; o_before : list row; o_after : list row }.
+
+Record case := mkCase { c_steps : list cstep; c_optins : list ostep }.
 
 Fixpoint nodupb {A} (eqb : A -> A -> bool) (l : list A) : bool :=
   match l with [] => true | a :: t => negb (existsb (eqb a) t) && nodupb eqb t end.
@@ -293,6 +327,26 @@ Definition votes_ok (s : st) (vs : list vquery) : bool :=
                          end
                     else oz_eqb (vq_power q) (Some 0)) vs.
 
+Definition rows_sub (a b : list row) : bool := forallb (fun x => existsb (row_eqb x) b) a.
+Definition rows_seteq (a b : list row) : bool := Nat.eqb (List.length a) (List.length b) && rows_sub a b && rows_sub b a.
+
+(* model = implementation for an opt-in (the unmodelled checks are read off the observed result) *)
+Definition check_optin (o : ostep) : bool :=
+  let e := mkEnv [] [] (o_avss o) in
+  if o_ok o then rows_seteq (s_rows (opt_in e (mkSt (o_before o) []) (o_key o) (o_op o) true)) (o_after o) &&
+                 negb (list_eqb row_eqb (o_before o) (o_after o))
+  else list_eqb row_eqb (o_before o) (o_after o).
+
+(* the statement's side: an accepted opt-in names a registered AVS by its registered spelling and creates exactly the zero
+   row under that key; a rejected one changes nothing *)
+Definition optin_ok (o : ostep) : bool :=
+  if o_ok o then existsb (fun a => v_id a =? o_key o) (o_avss o) && negb (has_row (o_before o) (o_key o) (o_op o)) &&
+                 rows_seteq (o_before o ++ [mkRow (o_key o) (o_op o) 0 0 0]) (o_after o)
+  else list_eqb row_eqb (o_before o) (o_after o).
+
+Fixpoint first_bad {A} (f : A -> bool) (l : list A) (i : nat) : option nat :=
+  match l with [] => None | a :: t => if f a then first_bad f t (S i) else Some i end.
+
 Fixpoint check_steps (ts : list cstep) (i : nat) : option nat :=
   match ts with
   | [] => None
@@ -302,7 +356,8 @@ Fixpoint check_steps (ts : list cstep) (i : nat) : option nat :=
          queries_model (t_after t) (t_queries t) && votes_model (t_after t) (t_votes t)
       then check_steps r (S i) else Some i
   end.
-Definition check_case (c : case) : option nat := check_steps (c_steps c) 0.
+Definition check_case (c : case) : option nat :=
+  match check_steps (c_steps c) 0 with Some i => Some i | None => first_bad check_optin (c_optins c) 100 end.
 
 Fixpoint monitor_steps (ts : list cstep) (i : nat) : option nat :=
   match ts with
@@ -312,4 +367,5 @@ Fixpoint monitor_steps (ts : list cstep) (i : nat) : option nat :=
          votes_ok (t_after t) (t_votes t)
       then monitor_steps r (S i) else Some i
   end.
-Definition monitor_case (c : case) : option nat := monitor_steps (c_steps c) 0.
+Definition monitor_case (c : case) : option nat :=
+  match monitor_steps (c_steps c) 0 with Some i => Some i | None => first_bad optin_ok (c_optins c) 100 end.
